@@ -10,13 +10,17 @@ SPEC = {
     "driver": "storagemodel",
     "harness_bin": "harness_storage",
     "level": "other",
-    "level_text": "under construction",
-    "level_note": "",
+    "level_text": ("Differential correspondence: the Lean model of the record allocator (Model/Storage.lean, function-for-function rendering of "
+                   "Storage<D>/StorageRecords) and the real Storage are run on the same generated histories (insert, insert_at incl. beyond end, "
+                   "replace, resize, move, remove, optimize, reopen, nested transactions) on all three back-ends; every result, record table, free list, "
+                   "emitted StorageData call and byte image is compared; independently an index->bytes reference map checks read-back, unreadability of "
+                   "removed values and compactness after optimize on the real code. The full-strength refinement statements (Props/C04.lean) are stated in "
+                   "Lean over all reachable states; theorems proved so far are listed in the evidence, the rest is stated but not yet proved — hence level `other`."),
+    "level_note": "Trusted: hand-written model validated by the st stream; reference map oracle; Lean kernel for the proved part.",
     "technique": "Lean 4 refinement proof (record allocator -> index-to-bytes map) + differential correspondence on all three back-ends",
     "design_ref": "DESIGN.md §6 C04",
     "assumptions": [],
     "quick": {"extra_args": []},
     "thorough": {"extra_args": []},
     "compare": "lines",
-    "claimed": False,
 }
